@@ -82,6 +82,10 @@ fn main() {
             }
             0
         }
+        | Some("storm") => {
+            let n = |i: usize, d: u64| args.get(i).and_then(|a| a.parse::<u64>().ok()).unwrap_or(d);
+            props::c17::storm_main(n(2, 0), n(3, 2), n(4, 40) as u32)
+        }
         | Some("list") => {
             for def in props::all() {
                 println!("{} {}", def.id, def.title);
